@@ -1,5 +1,6 @@
 import Canopy.Proof.Evidence
 import Canopy.Proof.Slash
+import Canopy.Proof.CertResults
 /-!
 # C14 — slashing accountability: only provable equivocation, once, within caps
 
@@ -386,6 +387,211 @@ theorem cap_stake_bound (P : Params) (hs : P.committeeScoped = true) (hmax : P.m
 theorem slash_exact (s p : UInt64) (hp : p.toNat ≤ 100) :
     (Gen.Evidence.stakeAfterSlash s p).toNat = s.toNat * (100 - p.toNat) / 100 :=
   stakeAfterSlash_floor s p hp
+
+/-! ## (e) the slash list of a nested committee on the root chain (certificate-results transactions)
+
+A nested chain's slash list reaches `HandleDoubleSigners` of the root chain inside the `Results` of a certificate
+of the nested committee. `QuorumCertificate.SignBytes` of an ELECTION_VOTE certificate covers header and proposer
+key only, and `CheckBasic` lets such a certificate carry `Results`/`ResultsHash`/`BlockHash` (that is the shape of
+the PROPOSE message). Found by this check: the root chain accepted it as certificate results, so the proposer a
+committee had elected — one Byzantine member — could attach a slash list of its own making and have honest
+validators slashed. Repaired: `MessageCertificateResults.Check` refuses ELECTION_VOTE certificates. -/
+
+/-- **certificate_results_sound**: an accepted certificate-results transaction carries a certificate that is not an
+ELECTION_VOTE certificate, whose aggregate consists of the individual signatures — over a payload that contains
+exactly the hash of the attached results — of members of the committee in force at its root height holding +2/3,
+and the transaction was signed by the certificate's proposer. So the slash list inside the results is one that
++2/3 of the committee signed (each honest signer after `ValidateByzantineEvidence`, `implicated_sound`). -/
+theorem certificate_results_sound (env : Env) (P : Params) (addrOf : KeyId → Option Addr) (L : Ledger) (cd : CommitteeData)
+    (q : QC) (signedByProposer : Bool) (slash : Option (List (Option DS))) (r : Ledger × CommitteeData)
+    (h : certificateResults env P addrOf L cd q signedByProposer slash = .ok r) :
+    CertifiedResults env q ∧ signedByProposer = true :=
+  certificateResults_certified h
+
+/-- every selected signer's own signature over the payload naming these results is inside the aggregate -/
+theorem certificate_results_signed (env : Env) (P : Params) (addrOf : KeyId → Option Addr) (L : Ledger) (cd : CommitteeData)
+    (q : QC) (sp : Bool) (slash : Option (List (Option DS))) (r : Ledger × CommitteeData)
+    (h : certificateResults env P addrOf L cd q sp slash = .ok r) :
+    ∃ hd ms sig res, q.header = some hd ∧ env.committeeAt hd.rootHeight = some ms ∧ q.signature = some sig ∧
+      q.results = some res ∧ (payloadOf q hd).resultsHash = res.hash ∧
+      ∀ k ∈ (selected sig.bitmap ms).map (·.key), (k, payloadOf q hd) ∈ sig.parts := by
+  obtain ⟨⟨hd, ms, sig, res, e1, _, e3, e4, e5, _, e7, e8, _⟩⟩ := (certificateResults_certified h).1
+  exact ⟨hd, ms, sig, res, e1, e3, e4, e5, e8, agg_parts _ _ _ _ e7⟩
+
+/-- the sign bytes of an ELECTION_VOTE certificate are blind to whatever results are attached -/
+theorem election_sign_bytes_ignore_results (q q' : QC) (hd : View) (h : hd.phase = Gen.Evidence.phaseElectionVote)
+    (hp : q.proposerKey = q'.proposerKey) : signPayload q hd = signPayload q' hd :=
+  signPayload_election_ignores_results q q' hd h hp
+
+def exElectionView : View := { exView with phase := 2 }
+/-- the committee elected member 4 (unanimously); member 4 attaches results of its own making -/
+def exForged : QC :=
+  { header := some exElectionView, blockHash := some (h32 1), resultsHash := some (h32 7), proposerKey := some [4],
+    block := none, results := some ⟨true, h32 7⟩,
+    signature := some { lenOK := true, group := exMembers.map (·.key), bitmap := [true, true, true, true, false, false, false, false],
+                        parts := exMembers.map fun m => (m.key, { header := exElectionView, blockHash := [], resultsHash := [], proposerKey := [4] }) } }
+def exLedger2 : Ledger :=
+  { Ledger.empty with vals := fun a => if a == [2] || a == [4] then some ⟨1000, [1, 7], false⟩ else none }
+
+/-- **before the repair** the forged transaction was accepted and honest member 2 — one signature in that view —
+lost 10 %: reproduced on the real state machine by the Go oracle
+(`C14:honest-validator-implicated:election-certificate-carries-slash-list`) -/
+theorem election_certificate_carried_slash_list_before_fix :
+    (certificateResultsWith false (exEnv fun _ => some 0) exP exAddrOf exLedger2 {} exForged true (some [some ⟨[2], [3]⟩])).toOption.map
+      (fun r => stakeOf r.1 [2]) = some 900 := by decide +kernel
+
+/-- the same transaction under the repaired check: refused for its phase -/
+example : errOf (certificateResults (exEnv fun _ => some 0) exP exAddrOf exLedger2 {} exForged true (some [some ⟨[2], [3]⟩])) =
+    some Gen.Err.lib.ErrWrongPhase := by decide +kernel
+
+/-- non-vacuity: results that +2/3 signed in PRECOMMIT_VOTE are accepted and their slash list is applied -/
+def exSigned : QC :=
+  { header := some exView, blockHash := some (h32 1), resultsHash := some (h32 7), proposerKey := some [2],
+    block := none, results := some ⟨true, h32 7⟩,
+    signature := some { lenOK := true, group := exMembers.map (·.key), bitmap := [true, true, true, false, false, false, false, false],
+                        parts := [[1], [2], [3]].map fun k => (k, { header := exView, blockHash := h32 1, resultsHash := h32 7, proposerKey := [2] }) } }
+example : (certificateResults (exEnv fun _ => some 0) exP exAddrOf exLedger2 {} exSigned true (some [some ⟨[4], [3]⟩])).toOption.map
+    (fun r => (stakeOf r.1 [4], r.2)) = some (900, ⟨3, 50⟩) := by decide +kernel
+/-- … the same certificate sent by somebody other than its proposer, or with other results, is refused -/
+example : errOf (certificateResults (exEnv fun _ => some 0) exP exAddrOf exLedger2 {} exSigned false (some [some ⟨[4], [3]⟩])) =
+    some Gen.Evidence.fsmErrUnauthorizedTx := by decide +kernel
+example : errOf (certificateResults (exEnv fun _ => some 0) exP exAddrOf exLedger2 {}
+    { exSigned with resultsHash := some (h32 6), results := some ⟨true, h32 6⟩ } true (some [some ⟨[1], [3]⟩])) =
+    some Gen.Err.lib.ErrInvalidAggrSignature := by decide +kernel
+
+/-- **the repair is in the source** (pinned on every run): `MessageCertificateResults.Check` refuses ELECTION_VOTE
+certificates, after `CheckBasic` (so the header exists) -/
+theorem certificateResults_rejects_election_phase :
+    Gen.Evidence.certResultsCheck.idxOf "if err := x.Qc.CheckBasic(); err != nil {" <
+      Gen.Evidence.certResultsCheck.idxOf "if x.Qc.Header.Phase == lib.Phase_ELECTION_VOTE {" ∧
+    Gen.Evidence.certResultsCheck[Gen.Evidence.certResultsCheck.idxOf "if x.Qc.Header.Phase == lib.Phase_ELECTION_VOTE {" + 1]? =
+      some "  return lib.ErrWrongPhase()" := by decide +kernel
+
+theorem certResultsCheck_shape : Gen.Evidence.certResultsCheck = [
+  "if x == nil {",
+  "  return ErrEmptyCertificateResults()",
+  "}",
+  "if err := x.Qc.CheckBasic(); err != nil {",
+  "  return err",
+  "}",
+  "results := x.Qc.Results",
+  "if results == nil {",
+  "  return ErrEmptyCertificateResults()",
+  "}",
+  "if x.Qc.Block != nil {",
+  "  return lib.ErrNilBlock()",
+  "}",
+  "if x.Qc.Header.Phase == lib.Phase_ELECTION_VOTE {",
+  "  return lib.ErrWrongPhase()",
+  "}",
+  "if err := checkChainId(x.Qc.Header.ChainId); err != nil {",
+  "  return err",
+  "}",
+  "if err := results.RewardRecipients.CheckBasic(); err != nil {",
+  "  return err",
+  "}",
+  "if results.RewardRecipients.NumberOfSamples != 0 {",
+  "  return ErrInvalidNumOfSamples()",
+  "}",
+  "if results.Checkpoint != nil {",
+  "  if len(results.Checkpoint.BlockHash) > 100 {",
+  "    return lib.ErrInvalidBlockHash()",
+  "  }",
+  "}",
+  "return checkOrders(results.Orders)"] := rfl
+
+theorem handleMessageCertificateResults_shape : Gen.Evidence.handleMessageCertificateResults = [
+  "rootChainId, err := s.GetRootChainId()",
+  "if err != nil {",
+  "  return err",
+  "}",
+  "if msg.Qc.Header.ChainId == rootChainId || msg.Qc.Header.ChainId == s.Config.ChainId {",
+  "  return ErrInvalidCertificateResults()",
+  "}",
+  "chainId := msg.Qc.Header.ChainId",
+  "var committee *lib.ValidatorSet",
+  "if s.LastValidatorSet != nil {",
+  "  committee = s.LastValidatorSet[msg.Qc.Header.RootHeight + 1][chainId]",
+  "}",
+  "if committee == nil {",
+  "  valSet, err := s.LoadCommittee(chainId, msg.Qc.Header.RootHeight)",
+  "  if err != nil {",
+  "    return err",
+  "  }",
+  "  committee = &valSet",
+  "}",
+  "isPartialQC, err := msg.Qc.Check(*committee, 0, &lib.View{NetworkId: uint64(s.NetworkID), ChainId: chainId}, false)",
+  "if err != nil {",
+  "  return err",
+  "}",
+  "if isPartialQC {",
+  "  return lib.ErrNoMaj23()",
+  "}",
+  "err = s.HandleCertificateResults(msg.Qc, committee)",
+  "return err"] := rfl
+
+theorem handleCertificateResults_shape : Gen.Evidence.handleCertificateResults = [
+  "if qc == nil || qc.Results == nil {",
+  "  return lib.ErrNilCertResults()",
+  "}",
+  "if qc.Header == nil {",
+  "  return lib.ErrEmptyView()",
+  "}",
+  "if qc.Results.RewardRecipients == nil {",
+  "  return lib.ErrNilRewardRecipients()",
+  "}",
+  "retired, err := s.CommitteeIsRetired(qc.Header.ChainId)",
+  "if err != nil {",
+  "  return err",
+  "}",
+  "if retired {",
+  "  return ErrNonSubsidizedCommittee()",
+  "}",
+  "data, err := s.GetCommitteeData(qc.Header.ChainId)",
+  "if err != nil {",
+  "  return err",
+  "}",
+  "if qc.Header.RootHeight < data.LastRootHeightUpdated {",
+  "  return lib.ErrInvalidQCRootChainHeight()",
+  "}",
+  "if qc.Header.Height <= data.LastChainHeightUpdated {",
+  "  return lib.ErrInvalidQCCommitteeHeight()",
+  "}",
+  "results, chainId, isNested := qc.Results, qc.Header.ChainId, committee == nil",
+  "if qc.Header.ChainId != s.Config.ChainId || isNested {",
+  "  if err = s.HandleDexBatch(qc.Header.ChainId, results, isNested); err != nil {",
+  "    return err",
+  "  }",
+  "}",
+  "s.HandleCommitteeSwaps(results.Orders, chainId)",
+  "if err = s.HandleCheckpoint(chainId, results); err != nil {",
+  "  return err",
+  "}",
+  "nonSignerPercent, err := s.HandleByzantine(qc, committee)",
+  "if err != nil {",
+  "  return err",
+  "}",
+  "for i, p := range results.RewardRecipients.PaymentPercents {",
+  "  if p == nil {",
+  "    return lib.ErrInvalidPercentAllocation()",
+  "  }",
+  "  results.RewardRecipients.PaymentPercents[i].Percent = lib.Uint64ReducePercentage(p.Percent, uint64(nonSignerPercent))",
+  "}",
+  "if qc.Results.Retired && qc.Header.ChainId != s.Config.ChainId {",
+  "  if err = s.RetireCommittee(qc.Header.ChainId); err != nil {",
+  "    return err",
+  "  }",
+  "}",
+  "err = s.UpsertCommitteeData(&lib.CommitteeData{ChainId: chainId, LastRootHeightUpdated: qc.Header.RootHeight, LastChainHeightUpdated: qc.Header.Height, PaymentPercents: results.RewardRecipients.PaymentPercents})",
+  "if err != nil {",
+  "  return err",
+  "}",
+  "return nil"] := rfl
+
+theorem certResults_signer_and_errors :
+    Gen.Evidence.src_certResultsAuthorizedSigner = "address, e := s.pubKeyBytesToAddress(x.Qc.ProposerKey); if e != nil { return nil, e }; return [][]byte{address}, nil" ∧
+    Gen.Evidence.fsmErrUnauthorizedTx = "state_machine/3" ∧ Gen.Evidence.fsmErrEmptyCertificateResults = "state_machine/89" :=
+  ⟨rfl, rfl, rfl⟩
 
 /-! ## the code has the shape the model transcribes (pinned from the source on every run) -/
 
